@@ -9,6 +9,7 @@ mod r1cs;
 mod replay;
 mod oracle;
 mod scen_c03;
+mod scen_c04;
 mod scen_c05;
 mod scen_c06;
 mod scen_c07;
@@ -148,6 +149,24 @@ fn tasks_for(prop: &str, tier: &str, seed: u64) -> Vec<Task> {
                         on_curve!(c.as_str(), f, k as u64, ntrees, seed, &c)
                     }),
                 });
+            }
+            out
+        }
+        "C04" => {
+            let mut out = vec![];
+            for (k, case) in scen_c04::c04_cases(thorough).into_iter().enumerate() {
+                let cs: Vec<&str> = if thorough { curves.clone() } else { vec![["secq256k1", "zorro", "curve25519"][k % 3]] };
+                for c in cs {
+                    let (case, c) = (case.clone(), c.to_string());
+                    out.push(Task {
+                        name: format!("C04:{}:{}", case.name, c),
+                        replay: serde_json::json!({"kind": "c04", "case": case, "seed": seed}),
+                        run: Box::new(move || {
+                            use scen_c04::job_c04 as f;
+                            on_curve!(c.as_str(), f, &case, seed, &c)
+                        }),
+                    });
+                }
             }
             out
         }
@@ -354,7 +373,7 @@ fn main() {
                     println!("REPLAY {}", if any_wrong { "REPRODUCED" } else { "NOT-REPRODUCED" });
                     std::process::exit(if any_wrong { 1 } else { 0 });
                 }
-                Some(kind @ ("c10" | "c13" | "c15" | "c07" | "c06" | "c09" | "c05")) => {
+                Some(kind @ ("c10" | "c13" | "c15" | "c07" | "c06" | "c09" | "c05" | "c04")) => {
                     let seed = rp["seed"].as_u64().unwrap_or(0);
                     let mut any_wrong = false;
                     for (k, m) in [(0u64, model.clone()), (1, HashMap::new()), (2, HashMap::new())] {
@@ -364,6 +383,10 @@ fn main() {
                                 replay::c10_native::<Secq>(&case, seed + k, m)
                             }
                             "c13" => replay::c13_native::<Secq>(rp["variant"].as_str().unwrap(), seed + k, m),
+                            "c04" => {
+                                let case: scen_c04::C04Case = serde_json::from_value(rp["case"].clone()).unwrap();
+                                scen_c04::c04_native::<Secq>(&case, seed + k)
+                            }
                             "c05" => {
                                 let case: scen_c05::C05Case = serde_json::from_value(rp["case"].clone()).unwrap();
                                 scen_c05::c05_native::<Secq>(&case, seed + k, m)
